@@ -33,6 +33,12 @@ CHECKS = {
  "C09": ("cmdsim","exploration","§5 C09","deterministic simulation, differential: typed Core twin vs bincode bridge vs JSON bridge on the same out-of-order history",
    "The typed core (itself judged against the reference model) and the bridges run the same history; decoded effect batches, views, resolve outcomes and routing (unique values) must agree per call, ids of outstanding requests must be pairwise distinct. Sampling, not proof.",
    "Trusted: serde/bincode/serde_json as the shell-side decoder."),
+ "C11": ("seamsim","exploration","§5 C11","deterministic simulation of the environment seams: one history replayed under different hash-map seeds (interposed getrandom), a skewed and counted clock (interposed clock_gettime), different threads, perturbed heap and sampled separate processes; byte comparison of all outputs; equality oracle on API values",
+   "Each generated history over a full app (HTTP with several headers, key-value, time, renders, out-of-order answers) is replayed on fresh cores while the simulator varies every environmental seam it owns; serialized effect batches and views must be byte-identical up to timer-id numbering, no clock may be read during core calls, and Response values must compare equal exactly when their contents are equal. Sampling over histories x seam settings, not proof.",
+   "Trusted: the interposition of getrandom / clock_gettime really is the only source of hash seeds / wall time in the process (checked by the call counters); addresses are perturbed, not controlled."),
+ "C12": ("cmdsim","fault_enumeration","§5 C12","deterministic simulation with exhaustive enumeration of corruption kinds at every position of sampled histories; bridge vs typed Core twin; allocation meter; catch_unwind; watchdog",
+   "For each sampled valid history over the bincode or JSON bridge and each position, every enumerated corruption (all truncations, bit flips, length-field overwrites, variant swaps, JSON number attacks, deep nesting, random and wrong-type bytes, empty) is injected in its own run copy; the call must return, allocate within a bound, be accepted exactly when the harness decoder accepts the bytes, leave the app untouched when an event is rejected, and the rest of the history must equal a typed twin in which at most the addressed request is affected. Enumeration complete per sampled (history, position), sampling across histories.",
+   "Trusted: serde/bincode/serde_json as the reference decoder, the typed Core as twin, the allocation bound."),
  "C13": ("cmdsim","exploration","§5 C13","deterministic simulation over long histories with drop-counted tokens and read-only occupancy accessors",
    "Long generated histories of start/resolve/drop/abort cycles; at every quiescent point executor tasks, command tasks, registry entries by kind and live tokens must be accounted for by the reference's outstanding work, and be zero after the drain phase and after the host is dropped. Sampling, not proof.",
    "Trusted: verif accessors, the reference model's notion of outstanding work."),
@@ -93,6 +99,7 @@ def main():
       "engines":[
         {"name":"thrsim","path":"sim/src/thr","serves_properties":["C08"],"kind_free_text":"baton-passing controller over real threads at crux_core::verif schedule points; explicit preemption schedules"},
         {"name":"capsim","path":"sim/src/cap","serves_properties":sorted([k for k,v in CHECKS.items() if v[0]=="capsim"]),"kind_free_text":"simulated peers behind the shell (timer service with discrete-event clock, key-value store, HTTP server with redirect graphs) with per-capability reference models"},
+        {"name":"seamsim","path":"sim/src/props/c11.rs + sim/src/seams.rs","serves_properties":["C11"],"kind_free_text":"replay under varied environment seams (hash seeds, clock, threads, processes)"},
         {"name":"cmdsim","path":"sim/src/cmd","serves_properties":sorted([k for k,v in CHECKS.items() if v[0]=="cmdsim"]),"kind_free_text":"generated program AST built twice (real crux API / reference interpreter), simulated shell with fault injection, six real hosts"},
       ],
       "checks":checks,
